@@ -88,3 +88,22 @@ func TestVerifC40(t *testing.T) {
 			"with snapshots open; crash clones at filesystem mutations inside RatchetFormatMajorVersion must recover a version in [old,new] (>= new "+
 			"once the call returned) with contents equal to a legal model state; FormatMajorVersion() never decreases; reads are audited before and after each ratchet.")
 }
+
+// C13: OnlyReadGuaranteedDurable reads are consistent and crash-proof.
+func TestVerifC13(t *testing.T) {
+	k := baseKnobs("C13")
+	k.MaintHeavy = true
+	runCrashDeck(t, "C13", "main", Options{Prop: "C13", Knobs: k, CloneEvery: 1 << 30, Depth: 0, AllowMixed: true, Extra: DurableIterExtra}, 40, 800,
+		"C12-style histories (writes of all kinds, large batches, frequent flushes and compactions); after many steps an OnlyReadGuaranteedDurable "+
+			"iterator is scanned completely: its view must equal a prefix state of the model at or after the last successful Flush, and a crash clone "+
+			"taken at that moment with 0% survival of unsynced data must recover a state at or ahead of that prefix.")
+}
+
+// C13 with ingests (known finding: an ingest enters the LSM ahead of older unflushed batches).
+func TestVerifC13Ingest(t *testing.T) {
+	k := baseKnobs("C13i")
+	k.MaintHeavy, k.Ingest, k.Excise = true, true, true
+	runCrashDeck(t, "C13", "ingest", Options{Prop: "C13", Knobs: k, CloneEvery: 1 << 30, Depth: 0, AllowMixed: true, Extra: DurableIterExtra}, 30, 600,
+		"The C13 histories plus Ingest / IngestAndExcise / Excise; a durable-only view that is a flushed prefix united with later ingests/excises "+
+			"(only unflushed batches missing) is reported under the class durable-view-non-prefix.")
+}
